@@ -512,6 +512,9 @@ def run(ctx):
     ctx.rule("R-16.8", "variance clause, symbolically: normal(0, sigma) with sigma^2*beta*mass == 1; beta*kB*T == 1 per engine; kB in the engine's energy unit; no rescaling between draw and writer except the engine's unit factor", floor=14)
     ctx.rule("R-16.7", "the frame index of the configuration that is dumped before velocity regeneration is tested with `is None`, never by truthiness (index 0 is a frame)", floor=5)
     ctx.rule("R-16.6", "positional role agreement in velocity regeneration: (dek, kin_new), (vel, sigma_v), (xyz, vel, box, names) and writer arguments sit where the callee returns / expects them", floor=8)
+    ctx.rule("R-16.9", "a callee handed an ensemble dictionary looks up only keys that record has (velocity settings such as zero_momentum live in its tis_set; a .get() on the ensemble itself silently yields the default)", floor=8)
+    from .shared import ensemble_record_agreement
+    ctx.attempt(ensemble_record_agreement, ctx, "R-16.9", [TIS], None, ": zero_momentum = true is ignored by engines whose default is false (net momentum kept), zero_momentum = false by those whose default is true")
     impls = implementations(ctx.tree)
     armed = 0
     for m, cname, f in impls:
@@ -545,6 +548,7 @@ def run(ctx):
 
 
 VARIANTS = [
+    B("c16-velocity-settings-from-ensemble", TIS, '    dek, _ = engine.modify_velocities(shpt_copy, ens_set["tis_set"])', '    dek, _ = engine.modify_velocities(shpt_copy, ens_set)', "R-16.9", control=True, why="seeded C16_f"),
     B("c16-ase-genvel-settings-cached", ASE, "        self.kb = 8.61733326e-5  # eV/K", "        self.genvel_settings = {\"temperature_K\": self.temperature, \"rng\": getattr(self, \"rgen\", None)}\n        self.kb = 8.61733326e-5  # eV/K", "R-16.5", control=True, why="seeded C16_d",
       also=[(ASE, "        MaxwellBoltzmannDistribution(\n            atoms,\n            temperature_K=self.temperature,\n            rng=getattr(self, \"rgen\", None),\n        )", "        MaxwellBoltzmannDistribution(atoms, **self.genvel_settings)")]),
     B("c16-sigma-times-mass", ENGBASE, "            sigma_v = np.sqrt(kbt * (1 / mass))", "            sigma_v = np.sqrt(kbt * mass)", "R-16.8", control=True),
